@@ -13,7 +13,7 @@ FALSIFIED_KINDS = [
     "unreachable", "index out of bounds", "possible", "might fail", "requires not satisfied",
 ]
 # units whose single loop query is heavy (measured: chain_write needs about 60 s of solver time)
-RLIMIT = {"chain_write": "400"}
+RLIMIT = {"chain_write": "400", "chain_replace": "400"}
 RESOURCE_KINDS = ["rlimit", "resource limit", "timed out", "timeout"]
 
 
